@@ -1,11 +1,15 @@
 # -*- coding: utf-8 -*-
 """C10 - acorr / lag_matrix / toeplitz / levinson_durbin / lpc.kautocor / lpc.kcovar against Model_C10 and the
 defining sums of Spec_C10 (exact rationals; residuals evaluated in Coq on the implementation's coefficients)."""
-import itertools
+import itertools, sys
 from fractions import Fraction
+import vlib.framework as _fw
 from vlib.framework import Family
 from vlib import coqlit as L
 from vlib.exactq import ExactQ, to_frac
+
+if hasattr(sys, "set_int_max_str_digits"):
+  sys.set_int_max_str_digits(0)
 
 PID = "C10"
 PROP_FILES = ["Prop"]
@@ -25,6 +29,10 @@ trusted_base = [
   "that it is, is checked here only through the correspondence (and is the subject of C05/C07)",
   "negative 'order' arguments are outside the model's domain (order : option nat)"]
 ASSUMPTIONS = ["CPython list / generator / sum semantics as documented"]
+
+# Qc arithmetic on long numerators is slow under vm_compute and one case file is evaluated by one coqc process:
+# smaller files keep all 16 cores busy (read by Checker.run_family at call time; this process only).
+_fw.CASES_PER_FILE = 40
 
 SMALL_T = [Fraction(-1), Fraction(0), Fraction(1, 2), Fraction(2)]
 SMALL_L = [Fraction(-1), Fraction(0), Fraction(1), Fraction(2)]
@@ -83,12 +91,20 @@ def order_tag(order, n):
 
 
 # ---------------------------------------------------------------------------------------------- observations
+HUGE = 10 ** 400   # far above anything the unchanged code produces on the generated inputs (< 10**120)
+
+
 def obs_filter(f):
   try:
     filt = f()
-    return {"num": [fr(to_frac(v)) for v in filt.numerator], "err": fr(to_frac(filt.error))}
+    o = {"num": [fr(to_frac(v)) for v in filt.numerator], "err": fr(to_frac(filt.error))}
   except Exception as e:
     return {"raise": type(e).__name__}
+  if any(abs(n) > HUGE or d > HUGE for n, d in o["num"] + [o["err"]]):
+    # a diverging (broken) recursion: not printable as a Coq literal in reasonable time; the case then fails the
+    # correspondence (the model returns a filter) and smaller cases carry the concrete property failure
+    return {"raise": "HugeNumbers"}
+  return o
 
 
 def q(p):
@@ -169,31 +185,32 @@ def gen_lev(tier, rng):
         yield {"r": [fr(v) for v in r], "order": order, "tags": ["exh", "len=%d" % n, order_tag(order, n)]}
   N = 1 if tier == "quick" else 10
   # lag lists from reflection coefficients in (-1, 1)
-  for _ in range(250 * N):
-    p = rng.randrange(1, 8)
-    ks = [Fraction(rng.randrange(-9, 10), 10) if rng.random() < 0.5 else Fraction(rng.randrange(-6, 7), 7) for _ in range(p)]
+  big = tier != "quick"
+  for _ in range(160 * N):
+    p = rng.randrange(1, 8) if big and rng.random() < 0.3 else rng.randrange(1, 6)
+    ks = [Fraction(rng.randrange(-9, 10), 10) if rng.random() < 0.5 else Fraction(rng.randrange(-3, 4), 4) for _ in range(p)]
     r = stepup(ks, rng.choice([1, 2, Fraction(7, 3), 10]))
     order = rng.choice([None, p, p, max(1, p - 1), rng.randrange(0, p + 1), p + rng.randrange(1, 4)])
     yield {"r": [fr(v) for v in r], "order": order, "tags": ["reflection", order_tag(order, len(r)), "p=%d" % p]}
   # singular: some |k| = 1 (zero prediction error, the next step divides by zero)
-  for _ in range(60 * N):
-    p = rng.randrange(1, 7)
+  for _ in range(50 * N):
+    p = rng.randrange(1, 6)
     ks = [Fraction(rng.randrange(-9, 10), 10) for _ in range(p)]
     ks[rng.randrange(p)] = Fraction(rng.choice([-1, 1]))
     r = stepup(ks, rng.choice([1, 3]))
     order = rng.choice([None, p, rng.randrange(0, p + 1), p + 1, p + 2])
     yield {"r": [fr(v) for v in r], "order": order, "tags": ["singular", order_tag(order, len(r))]}
   # from data
-  for _ in range(120 * N):
-    n = rng.randrange(2, 11)
+  for _ in range(100 * N):
+    n = rng.randrange(2, 11) if big and rng.random() < 0.3 else rng.randrange(2, 8)
     x = rblock(rng, n)
-    lags = rng.randrange(1, n + 3)
+    lags = rng.randrange(1, min(n, 6 if n < 8 else 8) + 3)
     r = py_acorr(x, lags)
     order = rng.choice([None, lags - 1, rng.randrange(0, lags), lags, lags + rng.randrange(1, 3)])
     yield {"r": [fr(v) for v in r], "order": order, "tags": ["data", order_tag(order, len(r))]}
   # arbitrary (indefinite) rational lists: the theorem covers them as long as no division by zero happens
-  for _ in range(150 * N):
-    n = rng.randrange(1, 8)
+  for _ in range(100 * N):
+    n = rng.randrange(1, 8) if big and rng.random() < 0.3 else rng.randrange(1, 6)
     r = [rq(rng) for _ in range(n)]
     order = rng.choice([None, n - 1, rng.randrange(0, n), n, n + rng.randrange(1, 3)])
     yield {"r": [fr(v) for v in r], "order": order, "tags": ["indefinite", order_tag(order, n)]}
@@ -223,11 +240,13 @@ def gen_kac(tier, rng):
       for order in [None] + list(range(0, n + 2)):
         yield {"blk": [fr(v) for v in blk], "order": order, "via": STRATS_A[(n + (order or 0)) % 4],
                "tags": ["exh", "len=%d" % n, order_tag(order, n)]}
-  for _ in range(300 if tier == "quick" else 3500):
-    n = rng.randrange(2, 11)
+  big = tier != "quick"
+  for _ in range(200 if tier == "quick" else 3000):
+    n = rng.randrange(2, 11) if big and rng.random() < 0.25 else rng.randrange(2, 8)
     order = rng.choice([None, n - 1, rng.randrange(1, n), rng.randrange(1, n), rng.randrange(1, n), n, n + rng.randrange(1, 3)])
-    if order is None and n > 7:
-      n = 7
+    if order is None or order > 5:
+      n = min(n, 6)
+      order = None if order is None else min(order, n + 1)
     yield {"blk": [fr(v) for v in rblock(rng, n)], "order": order, "via": rng.choice(STRATS_A),
            "tags": ["random", order_tag(order, n)]}
 
@@ -253,14 +272,14 @@ def gen_kcv(tier, rng):
       for order in [None] + list(range(0, n + 2)):
         yield {"blk": [fr(v) for v in blk], "order": order, "via": STRATS_C[(n + (order or 0)) % 3],
                "tags": ["exh", "len=%d" % n, order_tag(order, n)]}
-  for _ in range(400 if tier == "quick" else 4500):
-    order = rng.choice([1, 1, 2, 2, 3, 3, 4, 5])
-    n = order + rng.randrange(0, 9) if rng.random() < 0.9 else rng.randrange(1, order + 1)
+  for _ in range(300 if tier == "quick" else 4000):
+    order = rng.choice([1, 1, 2, 2, 3, 3, 4, 5] if tier != "quick" else [1, 1, 2, 2, 3, 3, 4])
+    n = order + rng.randrange(0, 9 if tier != "quick" else 6) if rng.random() < 0.9 else rng.randrange(1, order + 1)
     n = max(n, 1)
     kind = rng.choice(["decay", "decay", None])
     if kind == "decay":  # a decaying resonance plus noise: stable predictors are the common outcome
-      g = Fraction(rng.randrange(3, 9), 10)
-      blk = [(g ** i) * rng.choice([1, 1, -1]) * rng.randrange(1, 4) + Fraction(rng.randrange(-2, 3), 7) for i in range(n)]
+      g = rng.choice([Fraction(1, 2), Fraction(2, 3), Fraction(3, 4), Fraction(-1, 2)])
+      blk = [(g ** i) * rng.choice([1, 1, -1]) * rng.randrange(1, 4) + Fraction(rng.randrange(-1, 2), 4) for i in range(n)]
     else:
       blk = rblock(rng, n)
     if rng.random() < 0.04:
